@@ -22,7 +22,7 @@ import (
 
 type chainState struct {
 	XAppend, XFirst, YIn bool
-	Marks                map[string]bool // fail-y-exit, fail-y-timeout, fail-y-noout, fail-x-exit, w-destroyed, w-broken
+	Marks                map[string]bool // fail-y-exit, fail-y-mid, fail-y-timeout, fail-y-noout, fail-x-exit, fail-d-nodir, w-destroyed, w-broken, w-self-destroy
 	NoCachePos           string          // "", "x", "y"  (fixed per universe)
 	DelOutputs           bool            // pending: all outputs are deleted from the workspace before the next build
 	Queue                bool            // universe with num_workers=1 and three extra independent targets
@@ -89,6 +89,12 @@ echo "end $GROG_TARGET" >> "$VTRACE"`
 	s.Targets = append(s.Targets, hist.Target{Pkg: "p", Name: "x", Command: xCmd, Inputs: []string{"x.in"}, Outputs: []string{"x.out"}, Tags: tags("x"), Timeout: "10m"}) // a timeout that never expires: a plain failure must still be a failure
 	yCmd := traceStart + `
 if [ -e "$VMARK/fail-y-exit" ]; then echo "fail $GROG_TARGET" >> "$VTRACE"; echo "y fails on purpose"; exit 3; fi
+if [ -e "$VMARK/fail-y-mid" ]; then
+  # a failing statement that is not the last one: the documented default (set -eu) makes it the command's failure
+  echo "fail $GROG_TARGET" >> "$VTRACE"
+  false
+  echo "statement after the failing one" >/dev/null
+fi
 if [ -e "$VMARK/fail-y-timeout" ]; then
   # a polite command: asked to terminate it leaves (partial) outputs behind and exits 0 - exceeding the timeout is a failure all the same
   sleep 30 &
@@ -115,6 +121,7 @@ echo "end $GROG_TARGET" >> "$VTRACE"`
 rm -rf dd && mkdir -p dd/sub
 printf 'd(%s)' "$(cat x.out)" > dd/f.txt
 printf 'const' > dd/sub/g.txt
+if [ -e "$VMARK/fail-d-nodir" ]; then rm -rf dd; fi
 echo "end $GROG_TARGET" >> "$VTRACE"`})
 	s.Targets = append(s.Targets, hist.Target{Pkg: "p", Name: "e", Deps: []string{":d"}, Outputs: []string{"e.out"}, Command: traceStart + `
 printf 'e(%s,%s)' "$(cat dd/f.txt)" "$(cat dd/sub/g.txt)" > e.out
@@ -131,6 +138,7 @@ echo "end $GROG_TARGET" >> "$VTRACE"`})
 	// which its command establishes unless w-broken is set
 	wCmd := traceStart + `
 if [ ! -e "$VMARK/w-broken" ]; then rm -f "$VMARK/w-destroyed"; fi
+if [ -e "$VMARK/w-self-destroy" ]; then touch "$VMARK/w-destroyed"; fi
 printf 'w' > w.out
 echo "end $GROG_TARGET" >> "$VTRACE"`
 	s.Targets = append(s.Targets, hist.Target{Pkg: "p", Name: "w", Command: wCmd, Inputs: []string{"x.in"}, Outputs: []string{"w.out"},
@@ -314,11 +322,21 @@ func (e *chainEngine) predict(st chainState, m *chainModel, cacheDisabled bool) 
 		case "x":
 			fails = st.Marks["fail-x-exit"]
 		case "y":
-			fails = st.Marks["fail-y-exit"] || st.Marks["fail-y-timeout"] || st.Marks["fail-y-noout"]
+			fails = st.Marks["fail-y-exit"] || st.Marks["fail-y-timeout"] || st.Marks["fail-y-noout"] || st.Marks["fail-y-mid"]
+		case "d":
+			fails = st.Marks["fail-d-nodir"]
 		case "w":
 			if !after.Marks["w-broken"] {
 				if pred[t] == "run" {
 					delete(after.Marks, "w-destroyed")
+				}
+			}
+			if after.Marks["w-self-destroy"] {
+				if pred[t] == "run" {
+					// the command itself leaves a state that fails the checks (they passed before it ran)
+					after.Marks["w-destroyed"] = true
+				} else {
+					pred[t] = "?"
 				}
 			}
 			fails = after.Marks["w-destroyed"] // the check still fails after execution
@@ -544,7 +562,7 @@ func (e *chainEngine) doOp(n *cnode, op chainOp) *cnode {
 			sig := "C02:unexpected-execution://p:" + t
 			up := false
 			for _, f := range failed {
-				if (f == "x" && (t == "y" || t == "z" || t == "d" || t == "e")) || (f == "y" && t == "z") {
+				if (f == "x" && (t == "y" || t == "z" || t == "d" || t == "e")) || (f == "y" && t == "z") || (f == "d" && t == "e") {
 					up = true
 				}
 			}
@@ -581,6 +599,10 @@ func (e *chainEngine) doOp(n *cnode, op chainOp) *cnode {
 			sig = "C14:timeout-ignored"
 		} else if n.st.Marks["fail-y-noout"] && failed[0] == "y" {
 			sig = "C14:missing-declared-output-accepted"
+		} else if failed[0] == "d" {
+			sig = "C14:missing-declared-directory-output-accepted"
+		} else if n.st.Marks["fail-y-mid"] && failed[0] == "y" {
+			sig = "C05:failing-statement-in-the-middle-of-a-command-not-reported"
 		}
 		vio(sig, "targets %v must fail but grog exited 0", failed)
 	}
@@ -850,11 +872,14 @@ func init() {
 		})(c)
 	}
 	Registry["C14"] = func(c *Ctx) {
-		c.R.Rule = "breadth-first search over histories of <= n operations from {destroy / break the externally checked condition of //p:w, make //p:y exit non-zero | exceed its timeout | not create its declared output, edit, grog build} by the REAL binary; reference model: success is reported and cached only if exit 0 within the timeout, outputs exist and checks pass; a cached result with a now-failing output check forces execution; a check still failing after execution fails the build and caches nothing (the follow-up build attempts the target again). Non-trivial = a build that executed some but not all targets."
+		c.R.Rule = "breadth-first search over histories of <= n operations from {destroy / break the externally checked condition of //p:w, make //p:w's own command destroy it, make //p:y exit non-zero | exceed its timeout | not create its declared output, make //p:d not create its declared directory output, edit, grog build} by the REAL binary; reference model: success is reported and cached only if exit 0 within the timeout, outputs exist and checks pass; a cached result with a now-failing output check forces execution; a check still failing after execution fails the build and caches nothing (the follow-up build attempts the target again). Non-trivial = a build that executed some but not all targets."
 		c.R.Assume("the checked condition is an external marker outside the declared inputs/outputs", "timeout mode uses timeout=1s against a 30 s sleep; wall-clock enters only through grog's own timeout handling, never through the oracle")
 		chainCheck("C14", []string{"C14:", "C05:failed-target-not-attempted-again", "C04:build-hangs"}, 5, 6, func(e *chainEngine, thorough bool) {
 			e.universes = []chainState{{}, {Minimal: true}}
-			e.ops = []chainOp{markOp("w-destroyed"), markOp("w-broken"), markOp("fail-y-exit"), markOp("fail-y-noout"), markOp("fail-y-timeout"), opEditFirst, opBuild}
+			e.ops = []chainOp{markOp("w-destroyed"), markOp("w-broken"), markOp("w-self-destroy"), markOp("fail-y-exit"), markOp("fail-y-noout"), markOp("fail-y-timeout"), markOp("fail-d-nodir"), opEditFirst, opBuild}
+			if thorough {
+				e.ops = append(e.ops, markOp("fail-y-mid"))
+			}
 		})(c)
 	}
 }
